@@ -1240,18 +1240,19 @@ def shards(tier: str, seed: int) -> list[dict[str, Any]]:
 
 
 def floors(tier: str) -> dict[str, int]:
-    k = 1 if tier == "quick" else 20
+    q = tier == "quick"
     return {
-        "evaluations": 200_000 * k,
-        "string_evaluations": 150_000 * k,
-        "number_evaluations": 10_000 * k,
-        "json_evaluations": 10_000 * k,
-        "distinct_nontrivial": 100_000 * (1 if tier == "quick" else 10),
+        "evaluations": 500_000 if q else 10_000_000,
+        "string_evaluations": 450_000 if q else 8_000_000,
+        "number_evaluations": 25_000 if q else 300_000,
+        "json_evaluations": 15_000 if q else 1_000_000,
+        "distinct_nontrivial": 350_000 if q else 2_000_000,
+        # every string site, number site and json variant must have been exercised
         "set:sites": len(STRING_SITES) + len(NUM_SITES) + len(JSON_VARIANTS),
-        "distinct_codepoints": 2_000 if tier == "quick" else 60_000,
-        "set:codepoints": 248,
-        "adversarial_strings": 1_400,
-        "invalid_spellings_rejected": 1,
+        "distinct_codepoints": 4_000 if q else 150_000,
+        "set:codepoints": 280 if q else 1_500,
+        "adversarial_strings": 1_464,  # = all strings of length <= 3 over HOSTILE
+        "random_strings": 7_000 if q else 600_000,
     }
 
 
